@@ -222,6 +222,7 @@ def build_factx(rundir):
 
 def run_factx(rundir):
     """regenerate lean/SonicSpec/Generated/*.lean from the current /repo; (ok, log)"""
+    rundir = os.path.abspath(rundir)
     binp, lg = build_factx(rundir)
     if not binp:
         return False, "factx build failed:\n" + lg
